@@ -12,6 +12,8 @@ permutation `list.sort` applies.
 import TraitsVerif.Lemmas.SeqRefine
 import TraitsVerif.Generated.Mutators
 import TraitsVerif.Lemmas.PyLList
+import TraitsVerif.Generated.CtorCopy
+import TraitsVerif.Model.CtorCopyAssumed
 namespace TraitsVerif.Props.C05
 open TraitsVerif TraitsVerif.Py TraitsVerif.Model
 variable {α : Type}
@@ -242,5 +244,25 @@ example :
 example :
     (TraitList.step { idEnv with v := fun k x => if k = 1 then .error .traitError else .ok x }
       [1] (.extend [5, 6, 7])).toOption.isNone = true := by decide
+
+/-! ### Tie to the source: construction and copying -/
+
+/-- **C05_init_source.**  `TraitList.__new__` / `__init__` in the working tree
+are, statement for statement, the ones the model assumes: the validator is
+taken iff it `is not None`, every initial item is validated in order, and the
+notifier list is a private copy `list(notifiers)` — keeping the caller's list
+object (seeded C05-m9) would let later edits of that list change who is
+notified. -/
+theorem C05_init_source :
+    (Generated.CtorCopy.traitListCtorCopy.take 2) = (Model.CtorCopyAssumed.traitListCtorCopy.take 2) := by
+  first | rfl | exact ⟨rfl, rfl⟩
+
+/-- **C05_copy_source.**  `TraitList.__deepcopy__` / `__getstate__` /
+`__setstate__` are the assumed ones: a deep copy re-validates deep copies of the
+items with a deep copy of the validator and carries no notifier; the pickled
+state has no `notifiers`, the restored object has `[]`. -/
+theorem C05_copy_source :
+    (Generated.CtorCopy.traitListCtorCopy.drop 2) = (Model.CtorCopyAssumed.traitListCtorCopy.drop 2) := by
+  first | rfl | exact ⟨rfl, rfl⟩
 
 end TraitsVerif.Props.C05
